@@ -76,6 +76,25 @@ func (v *VerifEventHandlerStore) GetAll(event string) []reflect.Value {
 	return out
 }
 
+// GetAllHeld takes the handlers of one occurrence exactly as a dispatch does and returns a reader of that very slice:
+// what the dispatch would still see later, after other operations on the store.
+func (v *VerifEventHandlerStore) GetAllHeld(event string) func() []reflect.Value {
+	hs := v.s.getAll(event)
+	return func() []reflect.Value {
+		out := make([]reflect.Value, len(hs))
+		for i, h := range hs {
+			out[i] = h.rv
+		}
+		return out
+	}
+}
+
+// GetAllHeld: the same for the lifecycle store.
+func (v *VerifHandlerStore) GetAllHeld() func() []*VerifFunc {
+	hs := v.s.getAll()
+	return func() []*VerifFunc { return append([]*VerifFunc(nil), hs...) }
+}
+
 // ---- packet queue
 
 type VerifPacketQueue struct{ q *packetQueue }
